@@ -14,7 +14,7 @@ import (
 )
 
 func DebugFunc(repo, pkg, fnName, prop, tier string, dump bool, work string) int {
-	e, err := NewEngine(Options{RepoDir: repo, Prop: prop, Tier: tier, StrBytes: true}, []string{pkg})
+	e, err := NewEngine(Options{RepoDir: repo, Prop: prop, Tier: tier, StrBytes: true, NilChecks: true}, []string{pkg})
 	if err != nil {
 		fmt.Fprintln(os.Stderr, "load:", err)
 		return 2
@@ -153,7 +153,7 @@ func CmdSweep(args []string) int {
 		want[abs] = true
 		pkgs["./"+filepath.Dir(f)] = true
 	}
-	e, err := NewEngine(Options{RepoDir: *repo, Prop: *prop, Tier: "quick", StrBytes: true}, sortedKeys(pkgs))
+	e, err := NewEngine(Options{RepoDir: *repo, Prop: *prop, Tier: "quick", StrBytes: true, NilChecks: true}, sortedKeys(pkgs))
 	if err != nil {
 		fmt.Fprintln(os.Stderr, "load:", err)
 		return 2
@@ -198,12 +198,17 @@ func CmdSweep(args []string) int {
 	for i, v := range vcs {
 		fn := fns[i]
 		bad := v.unsupp != ""
+		var nilOnly []string
 		for _, o := range v.obls {
 			if o.Cover && !strings.HasSuffix(o.Name, "/cover/entry") {
 				continue
 			}
 			if o.Status != "proved" && o.Status != "cover-unknown" {
-				bad = true
+				if o.Kind == "nil" {
+					nilOnly = append(nilOnly, strings.TrimPrefix(o.Name, v.name+"/"))
+				} else {
+					bad = true
+				}
 			}
 		}
 		if bad {
@@ -217,7 +222,12 @@ func CmdSweep(args []string) int {
 			continue
 		}
 		nclean++
-		clean[fn.Pkg.Pkg.Path()] = append(clean[fn.Pkg.Pkg.Path()], fn.RelString(fn.Pkg.Pkg))
+		ref := fn.RelString(fn.Pkg.Pkg)
+		if len(nilOnly) > 0 {
+			fmt.Printf("NIL-UNPROVED %s: %s\n", v.name, strings.Join(nilOnly, "; "))
+			ref += " -- unproved: " + strings.Join(nilOnly, "; ")
+		}
+		clean[fn.Pkg.Pkg.Path()] = append(clean[fn.Pkg.Pkg.Path()], ref)
 	}
 	fmt.Printf("sweep: %d functions, %d clean, %d not clean\n", len(vcs), nclean, nbad)
 	if *emit {
@@ -247,6 +257,12 @@ func anchorFiles(propsPath, prop, repo string) []string {
 		return nil
 	}
 	var out []string
+	if ex, err := os.ReadFile(filepath.Join(filepath.Dir(propsPath), "sweep_extra.json")); err == nil {
+		var m map[string][]string
+		if json.Unmarshal(ex, &m) == nil {
+			out = append(out, m[prop]...)
+		}
+	}
 	for _, l := range strings.Split(string(data), "\n") {
 		var p struct {
 			ID      string `json:"id"`
